@@ -427,6 +427,35 @@ def check(model, rep, tier):
               witness='TypeError when the generated code runs')
   rep.unit('distinct emitted ag__ names', len(seen))
 
+  # ---------------------------------------------------------------- TPL-FLAG (post-processor)
+  # the guards that follow a lowered continue / return are inserted by the
+  # after_visit callback of visit_block: whether a block needs them is only known
+  # while it is being visited (the first jump may sit inside it), so the callback
+  # is handed over unconditionally by every block visit of these passes
+  for rel_, cname_ in ((CONV + 'continue_statements.py', 'ContinueCanonicalizationTransformer'),
+                       (CONV + 'return_statements.py', 'ConditionalReturnRewriter'),
+                       (CONV + 'return_statements.py', 'ReturnStatementsTransformer')):
+    cls_ = model.cls(rel_, cname_)
+    if '_postprocess_statement' not in cls_.methods:
+      continue
+    for mname_, m_ in cls_.methods.items():
+      for c_ in core.walk_no_nested(m_.node):
+        if not (isinstance(c_, ast.Call) and core.norm(c_.func) == 'self.visit_block'):
+          continue
+        kws_ = {k.arg: k.value for k in c_.keywords}
+        if 'after_visit' not in kws_ and len(c_.args) < 3:
+          continue          # a block of non-statements (items, handlers)
+        cb = kws_.get('after_visit', c_.args[2] if len(c_.args) > 2 else None)
+        v_ = tpl.xnorm(m_, cb, c_) if cb is not None else None
+        rep.check(v_ == 'self._postprocess_statement', 'TPL-FLAG',
+                  '%s:%s:post-processor-unconditional' % (m_.site, core.norm(c_.args[0])
+                                                          if c_.args else '?'),
+                  'the statement post-processor must be passed to visit_block '
+                  'whatever the state is when the block is entered: a jump found '
+                  'inside the block changes the state while it is visited',
+                  {'after_visit': v_}, line=c_.lineno,
+                  witness='if a: (if b: continue); trailing()  -- trailing runs '
+                  'although the original skipped it')
   # ---------------------------------------------------------------- TPL-FLAG
   n_conj = 0
   for s in sites:
@@ -782,6 +811,9 @@ def check(model, rep, tier):
   rules_fold.check(model, rep, 'FOLD')
 
   # ---------------------------------------------------------------- dependencies
+  rep.depends('C02', ['SETSEL', 'TPL-NONLOCAL', 'HIDDEN-TEST'],
+              'a variable the block binds (or deletes) that is missing from the state '
+              'is a dead local of the generated branch / body function')
   rep.depends('C05', None,
               'the dataflow analyses that decide loop / branch state run on this graph')
   rep.depends('C06', None,
